@@ -190,7 +190,11 @@ LeavesG7c ==
      AndC(CmpC("ge", At(y, "n"), LitI(0)),
           InC(At(y, "n"), Concat(At(SubE(1, OrC(CmpC("ge", At(x, "n"), LitI(2)), CmpC("eq", At(x, "m"), LitI(0)), "fn"), "an"), "items")), "in_"), "fn"),
      AndC(CmpC("ne", At(y, "s"), LitS(<<>>)),
-          InC(y, Concat(At(SubE(1, OrC(CmpC("eq", At(x, "n"), LitI(0)), CmpC("ge", At(x, "m"), LitI(1)), "fn"), "an"), "refs")), "in_"), "fn") >>
+          InC(y, Concat(At(SubE(1, OrC(CmpC("eq", At(x, "n"), LitI(0)), CmpC("ge", At(x, "m"), LitI(1)), "fn"), "an"), "refs")), "in_"), "fn"),
+     \* ... whose condition is a disjunction with a conjunction that starts with a bare attribute in its first branch
+     AndC(CmpC("ge", At(y, "n"), LitI(0)),
+          InC(At(y, "n"), Concat(At(SubE(1, OrC(AndC(Truth(At(x, "items")), CmpC("ge", At(x, "n"), LitI(1)), "fn"),
+                                                CmpC("eq", At(x, "m"), LitI(0)), "fn"), "an"), "items")), "in_"), "fn") >>
   \o Some(CoreLeaves(y), 4)
 
 (* ---- G6: sub-queries.  a sub-query over x or over (x, y) used as a     ----*)
